@@ -10,6 +10,7 @@
 package tagjson
 
 import (
+	"bytes"
 	"encoding/json"
 	"fmt"
 	"math"
@@ -80,6 +81,9 @@ func From(v interface{}) T {
 	case float32:
 		return T{K: "i", S: str(FmtNum(float64(v)))}
 	case json.Number:
+		if f, err := v.Float64(); err == nil && f == math.Trunc(f) && math.Abs(f) < 1e15 {
+			return T{K: "i", S: str(FmtNum(f))} // 2.0 and 2 are the same number
+		}
 		return T{K: "i", S: str(v.String())}
 	case map[string]interface{}:
 		m := make(map[string]T, len(v))
@@ -139,7 +143,9 @@ func From(v interface{}) T {
 // FromJSON parses JSON text and tags it.
 func FromJSON(b []byte) (T, error) {
 	var x interface{}
-	if err := json.Unmarshal(b, &x); err != nil {
+	d := json.NewDecoder(bytes.NewReader(b))
+	d.UseNumber() // keep integers beyond 2^53 and the integer/float distinction of the text
+	if err := d.Decode(&x); err != nil {
 		return T{}, err
 	}
 	return From(x), nil
